@@ -1,0 +1,14 @@
+//go:build verif
+
+// Contracts for package kfmt, read as text by /verif/engine (govc); no code.
+
+package kfmt
+
+//@ mode bv
+
+// As seen by callers in other packages: formatted logging touches nothing
+// they talk about (its own behaviour is the subject of C15).
+//@ func Fprintf(w io.Writer, format string, args ...interface{})
+//@   trusted
+//@ func Printf(format string, args ...interface{})
+//@   trusted
